@@ -50,7 +50,7 @@ def enumerate_configs(ctx):
     n_exh = len(tuples)
     if n_exh == 0:
         raise Broken("FrameConfigs printed no configuration")
-    nsim = 1600 if q else 60000
+    nsim = 1200 if q else 60000
     r = vlib.run_tlc(ctx, mod, write_cfg(ctx, "cfg_sim.cfg", "wide"), workers=4, timeout=1500, heap="4g", tag="cfgsim",
                      simulate=nsim // 8, depth=16, seed=ctx.seed)
     if r.kind != "ok":
@@ -115,7 +115,9 @@ def signature(o, inv, lost):
         return "SavedRestored:a64:lightcall-vec-saved-as-64-bit"
     if arch == "a64" and light and inv == "StackArgs" and len(saved[1]) % 2 == 1:
         return "StackArgs:a64:lightcall-odd-vec-saves-frame-size-mismatch"
-    if arch == "a64" and light and inv == "Accepted" and fr["pp_size"] > 256:
+    if arch == "a64" and inv == "StackArgs" and fr["has_fp"] and fr["sa_reg"] == 29 and not fr["has_da"]:
+        return "StackArgs:a64:preserved-fp-as-sa-register-offset"
+    if arch == "a64" and light and inv == "Accepted" and fr["pp_size"] >= 240:
         return "Accepted:a64:lightcall-save-area-exceeds-index-range"
     # generic: invariant + everything that selects a code path in finalize/emit_prolog/emit_epilog
     ex = "".join(n for n, g in (("v", 1), ("k", 2), ("m", 3)) if saved[g])
@@ -205,13 +207,17 @@ def check_observations(ctx, obs, label):
         ctx.log(f"{label}: {len(unknown)} unlisted failure groups; the first {MAX_CONFIRM} are confirmed and reported, the others are "
                 f"listed in {ctx.path('unconfirmed_groups.txt')}")
         open(ctx.path("unconfirmed_groups.txt"), "w").write("\n".join(unknown[MAX_CONFIRM:]) + "\n")
-    for key in confirm:
+    def confirm_one(key):
         g = groups[key]
         cases = sorted(g["cases"].values(), key=lambda o: (len(o["pro"]) + len(o["epi"]), json.dumps(o["cfg"])))
         rep = cases[0]
         rp = ctx.path("case_" + re.sub(r"[^A-Za-z0-9_.-]", "_", key)[:150] + ".ndjson")
         vlib.write_ndjson(rp, [rep])
-        r = run_shard(ctx, "confirm" + vlib.digest(key), rp, "strict", 1, 600)
+        r = run_shard(ctx, "confirm" + vlib.digest(key), rp, "strict", 1, 900)
+        return key, g, cases, rep, rp, r
+    with concurrent.futures.ThreadPoolExecutor(max_workers=6) as ex:
+        results = list(ex.map(confirm_one, confirm))
+    for key, g, cases, rep, rp, r in results:
         if r.kind != "violation":
             raise Broken(f"failure group {key} not confirmed by a strict run (kind={r.kind})\n" + r.out[-1500:])
         open(rp + ".tlc.txt", "w").write(r.out)
@@ -238,7 +244,7 @@ def run(ctx):
     if len(obs) != len(cfgs):
         raise Broken(f"harness answered {len(obs)} of {len(cfgs)} configurations")
     op2 = ctx.path("obs_random.ndjson")
-    nrand = 1200 if q else 40000
+    nrand = 1000 if q else 40000
     rc, _, err = vlib.run_harness(ctx, bdir, "frame", ["random", op2, nrand], timeout=900, env={"VERIF_SEED": ctx.seed})
     if rc != 0:
         raise Broken(f"harness frame random rc={rc}: {err[-600:]}")
